@@ -322,8 +322,9 @@ type listenerCfg struct {
 }
 
 type recorder struct {
-	pick   func(def api.FunctionDefinition) bool
-	events []string
+	pick       func(def api.FunctionDefinition) bool
+	events     []string
+	longSlices int
 }
 
 func (rc *recorder) NewFunctionListener(def api.FunctionDefinition) experimental.FunctionListener {
@@ -336,12 +337,21 @@ func (rc *recorder) NewFunctionListener(def api.FunctionDefinition) experimental
 func fname(def api.FunctionDefinition) string { return fmt.Sprintf("%s#%d", def.ModuleName(), def.Index()) }
 
 func (rc *recorder) Before(_ context.Context, mod api.Module, def api.FunctionDefinition, params []uint64, _ experimental.StackIterator) {
+	if n := len(def.ParamTypes()); len(params) > n {
+		rc.longSlices++ // known finding F27 (compiler hands the whole go-call stack view to host function listeners)
+		params = params[:n]
+	}
 	rc.events = append(rc.events, fmt.Sprintf("B %s in=%s %v", fname(def), mod.Name(), params))
 }
 
 func (rc *recorder) After(_ context.Context, mod api.Module, def api.FunctionDefinition, results []uint64) {
+	if n := len(def.ResultTypes()); len(results) > n {
+		rc.longSlices++
+		results = results[:n]
+	}
+	results = append([]uint64{}, results...)
 	for i := range results {
-		results[i] = uint64(uint32(results[i])) // all results here are i32
+		results[i] = uint64(uint32(results[i])) // all results here are i32 (upper halves: known finding F26)
 	}
 	rc.events = append(rc.events, fmt.Sprintf("A %s in=%s %v", fname(def), mod.Name(), results))
 }
@@ -464,10 +474,25 @@ func expected(p *Program) observation {
 	return o
 }
 
+var prop = flag.String("prop", "C04", "property on whose behalf the matrix runs: only violations of that property are reported")
+
+// report: the matrix decides three properties; a run on behalf of one of them reports that one's violations only
+// (signatures C04:… / C12:… / C20:… and F…: known findings of C20).
+type filtered struct{ *hx.Report }
+
+func (f filtered) Violate(v hx.Violation) {
+	own := strings.HasPrefix(v.Signature, *prop+":") || (*prop == "C20" && strings.HasPrefix(v.Signature, "F"))
+	if own {
+		f.Report.Violate(v)
+	} else {
+		f.Report.Count("other-property:" + strings.SplitN(v.Signature, ":", 2)[0])
+	}
+}
+
 func main() {
 	flag.Parse()
 	orc := hx.StartOracle()
-	rep := hx.NewReport("C04", "programs = random straight-line bodies for 3 functions in each of 3 linked guest modules over the ops {module-aware host calls, ref.func into a shared table, call_indirect, table.grow, memory.grow, sizes, local / imported / indirect calls} + entry-call sequences; each x {interpreter, compiler} x 6 listener configurations; distinct = distinct (program, engine, listener configuration)")
+	rep := filtered{hx.NewReport(*prop, "programs = random straight-line bodies for 3 functions in each of 3 linked guest modules over the ops {module-aware host calls, ref.func into a shared table, call_indirect, table.grow, memory.grow, sizes, local / imported / indirect calls} + entry-call sequences; each x {interpreter, compiler} x 6 listener configurations; distinct = distinct (program, engine, listener configuration)")}
 	r := hx.Rand()
 	progs := corpus()
 	n := 60
@@ -520,6 +545,22 @@ func main() {
 				}
 			}
 			if lc.pick != nil {
+				// the module handed to the listener of a GUEST function differs between the engines for calls
+				// that cross modules (known finding F28): compared separately
+				full := [2][]string{ev[0], ev[1]}
+				for e := range ev {
+					ev[e] = append([]string{}, ev[e]...)
+					for i, x := range ev[e] {
+						if f := strings.Fields(x); len(f) > 2 && !strings.HasPrefix(f[1], "env#") {
+							f[2] = "in=-"
+							ev[e][i] = strings.Join(f, " ")
+						}
+					}
+				}
+				if strings.Join(ev[0], "\n") == strings.Join(ev[1], "\n") && strings.Join(full[0], "\n") != strings.Join(full[1], "\n") {
+					rep.Violate(hx.Violation{Kind: "impl-violation", Signature: "F28:compiler-listener-module-is-callee-not-caller",
+						What: fmt.Sprintf("program %d with listeners=%s: the module given to the listener of an imported wasm function differs between the engines", p.ID, lc.name), Input: map[string]any{"program": p, "listeners": lc.name}})
+				}
 				if a, b := strings.Join(ev[0], "\n"), strings.Join(ev[1], "\n"); a != b {
 					i := 0
 					for i < len(ev[0]) && i < len(ev[1]) && ev[0][i] == ev[1][i] {
